@@ -10,7 +10,23 @@ from harness import common as H
 from symx import Violation
 
 PID = "C12"
-OPS = {0: "cont", 1: "text", 2: "bin", 8: "close", 9: "ping", 10: "pong"}
+EXPLANATION = (
+    "The real WebSocketReader (pure-Python reader_py) is fed (a) fully symbolic byte streams of n bytes and (b) valid frame "
+    "sequences (single/masked/fragmented/interleaved control/close/extended lengths/UTF-8/compressed) with a fully symbolic "
+    "1-2 byte window at every offset, once whole and once cut at solver-chosen positions, with max_msg_size and decode_text "
+    "symbolic. Per path z3 decides that the outcome is one refs/ref_ws.py (written from RFC 6455) allows: same messages "
+    "(type, payload, close code/reason), or the protocol-error close code the violated rule demands (1002/1007/1009), "
+    "nothing delivered after the first violation, only WebSocketError raised, the same outcome for every segmentation, and "
+    "bytes retained between calls <= max_msg_size + 14.")
+ASSUMPTIONS = [
+    "_websocket_mask_python replaced by the XOR model mask[i % 4] ^ data[i] (equivalence with the real table implementation: C11 lemma 'ws-mask-table')",
+    "ZLibDecompressor (zlib, FFI) replaced by a contract stub returning at most max_length opaque bytes; what a compressed message inflates to is outside the claim, only the RSV/size/fragment rules around it are decided",
+    "where the size of a message equals max_msg_size the property leaves the verdict open: both readings are accepted",
+    "decode_text=False is the documented raw mode: TEXT payloads are delivered as bytes without UTF-8 validation",
+    "protocol flow control is a counting stub (queue limit 64 KiB)",
+]
+TRUSTED = ["refs/ref_ws.py"]
+OPS ={0: "cont", 1: "text", 2: "bin", 8: "close", 9: "ping", 10: "pong"}
 
 
 class _Proto:
@@ -285,3 +301,11 @@ def twins(tier):
 
 
 REQUIRED_OUTCOMES = ("ok:1msg", "ok:0msg", "err:0msg:1002", "err:0msg:1009", "err:0msg:1007")
+
+
+def bounds(tier):
+    q = tier == "quick"
+    return {"symbolic_streams": "n=3 (max_msg_size 0..3) and n=4 (unlimited), 1 cut (quick) / n=4 (2 cuts, max 0..4) and n=5 (thorough); all 256 byte values; compressed mode n=3",
+            "templates": sorted(TEMPLATES), "window": "1 byte (quick) / 1-2 bytes (thorough) replacing the bytes at every offset",
+            "max_msg_size": "symbolic 0..4 (quick) / 0..6 (0 = unlimited)", "decode_text": "symbolic", "cuts": "1 symbolic cut position over the whole stream",
+            "outside": "payloads longer than the templates' (<= 3 bytes + extended-length encodings of them), real inflate output, more than 5 fully symbolic bytes"}
